@@ -242,7 +242,9 @@ PROPS = {
             "that to_canonical_graph / to_isomorphic / isomorphic decide isomorphism (colour refinement + search over "
             "individualisations: _TripleCanonicalizer._traces, _refine, Color.distinguish) - a search procedure whose "
             "correctness is a graph-theoretic theorem, outside what function contracts + SMT can carry; bounded stand-in "
-            "against brute-force search over all blank-node bijections on 23 symmetric structures (<= 7 blank nodes)",
+            "against brute-force search over all blank-node bijections on 23 symmetric structures (<= 7 blank nodes), plus 10 "
+            "regular structures of 8-12 blank nodes (Petersen, prism, cube, Wagner, K4,4, unions of cycles) against "
+            "randomly relabelled copies of themselves and known non-isomorphic look-alikes",
             "skolemize/de_skolemize round trip (string/URL parsing): bounded only",
         ],
         "explanation": "Only the set-algebra part of the property is within reach of contracts; the canonicalisation "
